@@ -49,6 +49,8 @@ def _runtime(case):
             vals.append(["n_jobs=%d" % nj, out])
         if case.get("second_pass"):
             vals.append(["second pass equals a fresh check of the edited dicts", vals[0][1][:4] + [True]])
+        # per-row verdicts of the single-reaction entry point (reference for the model; not compared by the oracle)
+        vals.append(["__ref__", [bool(BalanceReactionCheck.rsmi_balance_check(d["reactions"])) for d in case["data"]]])
     elif what == "syncrn":
         from synkit.CRN.DAG.syncrn import SynCRN
         for par, mw in case["jobs"]:
